@@ -42,7 +42,14 @@ def run(ctx):
     for bi in work_blocks:
         cs = f.conds(bi)
         has_p = any(e2.cond_positive(c, p_param) for c in cs) if p_param else False
-        has_g = any(c['kind'] == 'Eq' and c.get('truth') is True and
+        def ptr_eq_games(c):
+            # `ptr::eq(self.game, other.game)` spelled out (what Game's PartialEq does)
+            a = facts.strip_refs(c['a']) if c.get('a') is not None else None
+            if c['kind'] != 'bool' or c.get('truth') is not True or a is None or a[0] != 'call' or short(a[1]) != 'eq' or 'ptr' not in a[1] or len(a[2]) != 2:
+                return False
+            x, y = [norm(z) for z in a[2]]
+            return all(z[0] == 'field' and z[2] == 'game' for z in (x, y)) and x != y
+        has_g = any(ptr_eq_games(c) for c in cs) or any(c['kind'] == 'Eq' and c.get('truth') is True and
                     {facts.show(c['a']), facts.show(c['b'])} == {'self.game', 'other.game'} or
                     (c['kind'] == 'Eq' and c.get('truth') is True and all(x[0] == 'field' and x[2] == 'game' for x in (c['a'], c['b'])) and c['a'] != c['b'])
                     for c in cs)
@@ -78,10 +85,25 @@ def run(ctx):
         for bi, t, e in q.calls_named(c, 'powf'):
             found += 1
             base = facts.strip_refs(e[2][0])
+            if base[0] == 'field' and base[2] == '0' and facts.strip_refs(base[1])[0] == 'downcast' and q.is_call(facts.strip_refs(facts.strip_refs(base[1])[1]), 'next'):
+                # the item of an intermediate iterator `..map(|(l, r)| (l - r).abs())`: the term is that closure's value
+                it = facts.strip_refs(facts.strip_refs(facts.strip_refs(base[1])[1])[2][0])
+                while it[0] == 'call' and short(it[1]) in ('into_iter', 'by_ref') and it[2]:
+                    it = facts.strip_refs(it[2][0])
+                if q.is_call(it, 'map') and len(it[2]) == 2:
+                    mcf, _ = q.closure_of(lib, it[2][1])
+                    if mcf is not None:
+                        ctx.touch(mcf)
+                        base = facts.strip_refs(q.ret_expr(mcf))
             ab = base if q.is_call(base, 'abs') else None
             inner = facts.strip_refs(ab[2][0]) if ab else None
             is_diff = inner is not None and ((inner[0] == 'bin' and inner[1] == 'Sub') or q.is_call(inner, 'sub', 'ops::'))
             expo = norm(q.resolve_captures(lib, c, e[2][1]))
+            if expo[0] == 'field' and expo[1][0] == 'agg' and expo[1][1].startswith('adt:'):
+                # the exponent stored in a private accumulator struct: the value it was constructed with
+                adt = lib.adts.get(expo[1][1][4:].rsplit('::', 1)[0])
+                if adt and expo[2] in adt[0].get('fields', []) and adt[0]['fields'].index(expo[2]) < len(expo[1][2]):
+                    expo = norm(expo[1][2][adt[0]['fields'].index(expo[2])])
             expo_ok = expo[0] == 'upvar' or (p_param is not None and expo == p_param)
             ctx.verdict(bool(ab) and is_diff and expo_ok, rule, '%s:%s' % (rule, q.top(c.name)),
                         'each accumulated term is powf(abs(left - right), p): the difference goes through abs before the power', c.where(bi),
